@@ -20,6 +20,7 @@ inductive Frame where
   | completion
   | invoking (id : String)
   | uninvoking (id : String)
+  | stable                       -- bottom of the stack: a stable-configuration notice was the last thing that happened
   deriving Repr, BEq, Inhabited
 
 def splitTok (t : String) : String × String :=
@@ -56,22 +57,24 @@ def stepTok (stack : List Frame) : Tok → Option (List Frame)
     let (k, v) := splitTok s
     match k, stack with
     | "bi", [] => some [.invoking v]
-    | "ai", [.invoking w] => if v == w then some [] else none
+    | "bi", [.stable] => some [.invoking v, .stable]
+    | "ai", .invoking w :: rest => if v == w then some rest else none
     | "bu", [] => some [.uninvoking v]
-    | "au", [.uninvoking w] => if v == w then some [] else none
-    | "bu", [.completion] => some [.uninvoking v, .completion]
-    | "au", [.uninvoking w, .completion] => if v == w then some [.completion] else none
+    | "bu", [.stable] => some [.uninvoking v, .stable]
+    | "bu", .completion :: rest => some (.uninvoking v :: .completion :: rest)
     | "bu", .exitS x :: rest => some (.uninvoking v :: .exitS x :: rest)
-    | "au", .uninvoking w :: .exitS x :: rest => if v == w then some (.exitS x :: rest) else none
+    | "au", .uninvoking w :: rest => if v == w then some rest else none
     | "bi", _ => none | "ai", _ => none | "bu", _ => none | "au", _ => none
     | _, _ => some stack          -- cfg:…, DIVERGE, cancel, reset, destroyed, state:…
-  | .issue => match stack with | [] => some [] | _ => none
-  | .bpe _ => match stack with | [] => some [] | _ => none
-  | .st => match stack with | [] => some [] | _ => none
-  | .bm => match stack with | [] => some [.micro 0] | _ => none
+  | .issue => match stack with | [] => some [] | [.stable] => some [.stable] | _ => none
+  -- an event or a micro-step ends the quiet period after a stable-configuration notice; a second notice
+  -- without either in between is a violation (exactly one notice per completed macrostep)
+  | .bpe _ => match stack with | [] => some [] | [.stable] => some [] | _ => none
+  | .st => match stack with | [] => some [.stable] | _ => none
+  | .bm => match stack with | [] => some [.micro 0] | [.stable] => some [.micro 0] | _ => none
   | .am => match stack with | [.micro _] => some [] | _ => none
-  | .bcomp => match stack with | [] => some [.completion] | _ => none
-  | .acomp => match stack with | [.completion] => some [] | _ => none
+  | .bcomp => match stack with | [] => some [.completion] | [.stable] => some [.completion, .stable] | _ => none
+  | .acomp => match stack with | .completion :: rest => some rest | _ => none
   -- exits
   | .bx v => match stack with | [.micro p] => if p == 0 then some [.exitS v, .micro 0] else none | _ => none
   | .ax v => match stack with | .exitS w :: rest => if v == w then some rest else none | _ => none
@@ -96,6 +99,7 @@ def runT : List Frame → List Tok → Option (List Frame)
 /-- index of the first offending token, if any; the trace must end with an empty stack -/
 def checkT : List Tok → List Frame → Nat → Option Nat
   | [], [], _ => none
+  | [], [.stable], _ => none
   | [], _ :: _, i => some i
   | t :: rest, stack, i =>
     match stepTok stack t with
